@@ -242,9 +242,18 @@ func properties() map[string]*PropertySpec {
 				out = instLS("H_C06", []int64{2, 5}, sizesN, 4)
 				out = append(out, instLS("H_C06", []int64{0, 1, 3, 4, 6, 7, 8, 9}, []int64{12, 24}, 2)...)
 			}
+			// one-byte fragmentation of the whole delivery, with idle reads first (up to 35 Read calls)
+			if tier == "thorough" {
+				for _, z := range []int64{0, 1, 3} {
+					out = append(out, instLS("H_C06_trickle", []int64{2, 5}, sizesN, z)...)
+				}
+			} else {
+				out = append(out, instLS("H_C06_trickle", []int64{2}, []int64{12, 24}, 0)...)
+				out = append(out, instLS("H_C06_trickle", []int64{2}, []int64{12, 24}, 1)...)
+			}
 			return out
 		},
-		Bounds:  []string{"word count n in {12,15,18,21,24}", "at most R Read calls per NewMnemonic (quick R=4 for English/Japanese, R=2 others; thorough R=6, R=17 = every 1-byte fragmentation for n=12)", "each Read: symbolic fragment size 0..len(p), symbolic outcome nil/io.EOF/io.ErrUnexpectedEOF/other error/error that calls itself temporary, bytes may accompany an error", "io.ReadFull / io.ReadAtLeast executed from their real SSA"},
+		Bounds:  []string{"word count n in {12,15,18,21,24}", "at most R Read calls per NewMnemonic with symbolic fragment sizes and failures (quick R=4 for English/Japanese, R=2 others; thorough R=6, R=17 for n=12)", "plus the fixed one-byte fragmentation of the whole delivery preceded by z idle reads (4n/3+z calls, z<=1 quick, z<=3 thorough; delivered bytes symbolic)", "each Read: symbolic fragment size 0..len(p), symbolic outcome nil/io.EOF/io.ErrUnexpectedEOF/other error/error that calls itself temporary, bytes may accompany an error", "io.ReadFull / io.ReadAtLeast executed from their real SSA"},
 		Outside: []string{"sources needing more than R reads (paths end in an assumption)", "readers violating the io.Reader contract (n > len(p), n < 0)"},
 		Stubs:   []string{stubSHA, stubBig, stubStr},
 	}
@@ -780,6 +789,12 @@ func (c *CheckRun) judgeInsts(insts []*Instance, depth int) {
 	for f, m := range lastMiss {
 		if !doneFinding[f] {
 			c.Inconcl = append(c.Inconcl, m)
+		}
+	}
+	// an instance with a solver model that did not reproduce is inconclusive: it gets the fallback too
+	for _, p := range pend {
+		if !doneFinding[p.f] {
+			p.inst.Unconfirmed = true
 		}
 	}
 	for i, p := range wit {
